@@ -5,8 +5,10 @@ come from COMPLETE enumeration of multinomial count vectors with their exact pro
 dense matrices): jointly over all schedules for small cases, per schedule (independent schedules) for n <= 8, and the
 textbook 1/n law anchored at the enumerated n = 1 moments beyond.  The library's own LinearEstimator is run on every
 enumerated dataset.  Fisher matrix = enumerated one-shot expectation of the score outer product = textbook sum;
-Cramer-Rao bound = Tr (sum_j n_j F_j)^-1 (+ implied-element term where the library documents it).  Helper routines
-are compared with their definitions on all 0/1/2-valued arrays of small shapes.
+Cramer-Rao bound = Tr J (sum_j n_j F_j)^-1 J^T with J the Jacobian object <- variables (= Tr F^-1 whenever the implied
+part of the object is constant; the POVM override of the library is exactly this).  Helper routines are compared with
+their definitions on all 0/1/2-valued arrays of small shapes.  Tester sets are fixed measurement / preparation frames
+conjugated by one generic unitary, so VERIF_SEED changes their orientation but not their conditioning.
 """
 import itertools
 import math
@@ -29,11 +31,14 @@ ASSUMPTIONS = [
     "sample sizes above the enumeration bound use Cov(mean of n iid) = Cov(one shot)/n anchored at the enumerated n=1 moments; "
     "the law itself is re-checked on every enumerated n",
     "Fisher matrix / Cramer-Rao bound are only asserted when every outcome probability is >= 1e-3 (away from the 1e-8 replacement)",
+    "tester sets are informationally complete with cond(A) <= 100 (asserted per case); ill-conditioned tester sets, where the "
+    "library's pinv(A^T A) and the estimator's inv(A^T A) differ by more than rounding, are not covered",
+    "Cramer-Rao bound: relative tolerance max(1e-9, 100 eps cond(F)); lists with cond(F) > 1e8 are skipped (counted)",
     "true objects outside the shared alphabet, 2-qubit process tomography and the simulation-level 3-sigma comparators "
     "(loss_function.mean_squared_error) are not covered",
 ]
 BOUNDS = {
-    "quick": "1-qubit QST/POVMT/QPT/QMPT, testers with 2..4 outcomes (3..15 schedules), both flags, both modes; per-schedule "
+    "quick": "1-qubit QST/POVMT/QPT/QMPT, testers with 2..4 outcomes (1..15 schedules, 2..12 outcomes per schedule), both flags, both modes; per-schedule "
              "n <= 8 with <= 2000 count vectors per (schedule, n); joint enumeration <= 12000 datasets per list; "
              "large n in {10,1e3,1e6}; helpers on 0/1/2-valued arrays of shapes <= 3x2",
     "thorough": "adds qutrit QST/POVMT/QPT, 2-qubit QST, 5-state tester sets everywhere, <= 20000 count vectors per (schedule, n), "
@@ -80,14 +85,15 @@ class Case:
         self.seen[sig] = 1
         self.out.fail(sig, "%s | %s" % (self.label, msg))
 
-    def scalar(self, site, what, got, exact, floor, ctx):
+    def scalar(self, site, what, got, exact, floor, ctx, tol=None):
+        tol = TOL if tol is None else tol
         self.out.traces += 1
         ok = np.isscalar(got) or (isinstance(got, np.ndarray) and got.ndim == 0)
         if not ok or not np.isfinite(got):
             self.fail(site, what + ":not-a-finite-scalar", "%s got %r" % (ctx, got))
             return False
         scale = max(abs(exact), floor)
-        if abs(float(got) - exact) > TOL * scale:
+        if abs(float(got) - exact) > tol * scale:
             self.fail(site, what, "%s library=%.15g exact=%.15g rel.err=%.3g" % (ctx, float(got), exact, abs(float(got) - exact) / scale))
             return False
         return True
@@ -329,12 +335,10 @@ def ex_persched(p, seed):
     n_inner = 0
     if E is not None:
         additivity_spot(cs, S, est, E)
-        first = True
         for cls, n_list in small_lists(S.S, N) + large_lists(S.S, N):
             ex = exact_from_schedules(S, E, n_list)
             check_list(cs, S, cls, n_list, ex)
             n_inner += 1
-            first = False
         check_bad_mode(cs, S)
         n_inner += sum(e.count for e in E.values())
         out.digest = A.digest(*[E[k].S2_v for k in sorted(E)])
@@ -425,7 +429,7 @@ def ex_joint(p, seed):
                 ok, e = M.enum_schedule(S, est, j, n)
                 if ok:
                     E[(j, n)] = e
-        if all((j, n) in E for j, n in enumerate(n_list)) and all((j, 1) in E or True for j in range(S.S)):
+        if all((j, n) in E for j, n in enumerate(n_list)):
             cmp_ = exact_from_schedules(S, E, n_list)
             bad = False
             for key in ("mse_v", "mse_o", "mse_f"):
@@ -504,9 +508,11 @@ def ex_fisher(p, seed):
     for list_N in crb_lists(S.S):
         Ftot = sum(n * Fj for n, Fj in zip(list_N, Fs))
         cond = float(np.linalg.cond(Ftot))
-        if not np.isfinite(cond) or cond > 1e7:
+        if not np.isfinite(cond) or cond > 1e8:
             out.count("crb_skipped_ill_conditioned")
             continue
+        # forward error of an inverse ~ cond x machine epsilon: 1e-9 up to cond 1e5, 100 x cond x eps beyond
+        tol = max(TOL, cond * 1e-14)
         Finv = np.linalg.inv(Ftot)
         crb_var = float(np.trace(Finv))
         crb_obj = float(np.trace(S.J @ Finv @ S.J.T))
@@ -528,13 +534,17 @@ def ex_fisher(p, seed):
                 out.count("crb_checked:%s:%s" % (S.tomo, S.flag))
                 # the bound the library plots next to object-level mean squared errors: Tr J F^-1 J^T with J the Jacobian
                 # of the object w.r.t. the variables (= Tr F^-1 whenever the implied part is constant: states, gates, flag False)
-                implied = crb_obj > crb_var * (1 + 1e-6)
-                what = "differs-from-object-level-bound" if implied else "differs-from-trace-of-inverse-fisher"
-                if implied and np.isscalar(got) and abs(float(got) - crb_var) <= TOL * crb_var:
-                    what = "returns-variable-level-bound-implied-part-omitted"
-                if cs.scalar("calc_cramer_rao_bound", what, got, crb_obj, floor, ctx):
-                    if implied:
+                gap = (crb_obj - crb_var) / crb_var
+                if gap <= tol:                          # both levels coincide (states, gates, flag False)
+                    cs.scalar("calc_cramer_rao_bound", "differs-from-trace-of-inverse-fisher", got, crb_obj, floor, ctx, tol=tol)
+                elif gap > 10 * tol:                    # the implied part of the object has a resolvable contribution
+                    what = "differs-from-object-level-bound"
+                    if np.isscalar(got) and abs(float(got) - crb_var) <= tol * crb_var:
+                        what = "returns-variable-level-bound-implied-part-omitted"
+                    if cs.scalar("calc_cramer_rao_bound", what, got, crb_obj, floor, ctx, tol=tol):
                         out.count("crb_implied_term_effective:%s" % S.tomo)
+                else:
+                    out.count("crb_levels_not_resolvable")
     inner(out, n_inner)
     out.digest = A.digest(*Fs)
     out.outcome = "ok" if not out.fails else "fail"
@@ -909,15 +919,15 @@ def base_configs(tier):
             cfgs.append(({"tomo": "qmpt", "sys": "Q1", "states": st, "povms": pv, "m": m}, Q1_INSTR[m]))
     if th:
         q3_states = ["z0", "pure_generic", "pure_fourier", "mixed_generic", "boundary_generic", "maxmixed"]
-        for pv in ("g3x4", "g4x3", "g2x8", "g3x5"):
+        for pv in ("mub3", "mub4", "proj9"):
             cfgs.append(({"tomo": "qst", "sys": "Q3", "povms": pv}, q3_states))
         for st in ("g9", "g10"):
             for m, names in ((2, ["generic_m2", "projective_m2"]), (3, ["generic_m3", "rank1_m3", "projective_m3", "withzero_m3", "comp_m3"]),
                              (4, ["generic_m4", "rank1_m4", "withzero_m4"])):
                 cfgs.append(({"tomo": "povmt", "sys": "Q3", "states": st, "m": m}, names))
-        cfgs.append(({"tomo": "qpt", "sys": "Q3", "states": "g9", "povms": "g4x3"}, ["identity", "unitary_generic", "ampdamp", "depolarizing"]))
-        cfgs.append(({"tomo": "qpt", "sys": "Q3", "states": "g9", "povms": "g3x4"}, ["unitary_generic", "dephasing", "kraus_generic_r2"]))
-        for pv in ("g4x5", "g4x6", "g2x15"):
+        cfgs.append(({"tomo": "qpt", "sys": "Q3", "states": "g9", "povms": "mub3"}, ["identity", "unitary_generic", "ampdamp", "depolarizing"]))
+        cfgs.append(({"tomo": "qpt", "sys": "Q3", "states": "g10", "povms": "mub4"}, ["unitary_generic", "dephasing", "kraus_generic_r2"]))
+        for pv in ("pauli9", "tetra16"):
             cfgs.append(({"tomo": "qst", "sys": "Q2", "povms": pv}, ["z0", "pure_generic", "pure_fourier", "mixed_generic", "boundary_generic", "maxmixed"]))
     return cfgs
 
@@ -980,8 +990,7 @@ def schedule_outcomes(base):
     def pm(name):
         if name in M.Q1_POVM_SETS:
             return [M.Q1_POVM_M[k] for k in M.Q1_POVM_SETS[name]]
-        m, K = name[1:].split("x")
-        return [int(m)] * int(K)
+        return list(M.FIXED_POVM_SETS[name][1])
     def ns(name):
         return {"s4": 4, "s5": 5}.get(name) or int(name[1:])
     if t == "qst":
